@@ -16,7 +16,7 @@ PROPS = {
         not_yet_proved=[],
     ),
     "C02": dict(
-        extra_modules=["CstModel.Proofs.TokenNav"],
+        extra_modules=["CstModel.Proofs.TokenNav", "CstModel.Props.C03"],   # C03.forwarders_*: `text_range` of every wrapper type is the wrapped element's
         runs=runs([("red", "release")],
                   [("red", "release"), ("red", "debug"), ("red", "lasso")]),
         tags=["C02"],
@@ -229,6 +229,7 @@ PROPS = {
         not_yet_proved=[],
     ),
     "C19": dict(
+        extra_modules=["CstModel.Props.C03"],   # C03.forwarders_*: display / debug of every wrapper type forward to the node's / token's own
         runs=runs([("fmt", "release")], [("fmt", "release"), ("fmt", "debug"), ("fmt", "lasso")]),
         rule="cases = for every byte length 0..40 (thorough 0..60): 8 (thorough 12) texts built from 1-4 byte characters in different patterns + 4-byte runs shifted "
              "by 1-3 bytes, so that every alignment of character boundaries against the abbreviation window [21,25) occurs; texts needing escapes; all trees with "
